@@ -223,6 +223,51 @@ example : K.okScript [.enq 0, .drain 0] = true ∧ ¬ stuck demoInit := by
 example : (runSched (init [[.enq 0]] 1) [.app 0, .app 0]).map (fun s => (s.owed, s.k.evt, s.k.r,
     decide (∃ a ∈ s.k.apps, K.willSignal a))) = some (true, false, .idle, false) := by decide
 
+/-! ## the tick event split as in `K` (`C12.E.N`) -/
+namespace N
+
+/-- every reachable state of `N` projects to a `K`-reachable state (one `K.step` per step) -/
+theorem reach_is_K_reach {s : St} (h : Reach s) : K.Reach s.k := reach_k h
+
+/-- **The link, for EVERY interleaving of `K`.** With the engine moving by `K.step` itself (the
+    removal of `Dequeue` and `NotifyAllSubscribers` as separate actions between which application
+    threads run), the ghost flag of the wake model still implies the protocol condition. -/
+theorem owed_implies_signal_pending {s : St} (h : Reach s) (ho : s.owed = true) :
+    (∃ a ∈ s.k.apps, K.willSignal a) ∨ s.k.r = .tick :=
+  link_reach h ho
+
+/-- every step of `E` (tick event atomic) is a run of `N`: the atomic composition has no behaviour
+    the split one lacks -/
+theorem E_step_is_N_run {s s' : St} {t : K.Th} (h : E.step s t = some s') : ∃ ts, runSched s ts = some s' :=
+  step_isRun h
+
+/-- **Work is served in every state of every interleaving** — also in the middle of a tick event:
+    if a command is startable, then `runAsync` is about to call `TickLater`, or the tick event is
+    scheduled and will be handled, or the running tick has not passed that queue yet / has made
+    progress and re-schedules itself, or a thread still owes its signal. -/
+theorem work_is_served (outCap : Nat) {s : St} (h : Reach s) (hw : W.Drv.work outCap (coreOf s.k)) :
+    ∃ q, K.cmdsOf s.k q ≠ [] ∧ (K.served s.k q ∨ ∃ a ∈ s.k.apps, K.willSignal a) := by
+  have hq : ∃ q, K.cmdsOf s.k q ≠ [] := by
+    rcases hw with hw | ⟨q, hq, hs⟩ | ⟨hw, _⟩
+    · simp [coreOf] at hw
+    · simp only [coreOf, List.mem_map] at hq
+      obtain ⟨x, hx, rfl⟩ := hq
+      obtain ⟨j, hj⟩ := List.mem_iff_getElem?.mp hx
+      refine ⟨j, ?_⟩
+      have hne : x.cmds ≠ [] := by
+        intro hn; apply hs.1; simp [qOf, hn]
+      simpa [K.cmdsOf, K.cmdsAt, hj] using hne
+    · simp [coreOf] at hw
+  obtain ⟨q, hq⟩ := hq
+  exact ⟨q, hq, K.no_lost_wakeup (reach_k h) q hq⟩
+
+-- non-vacuity: the application thread enqueues a second command BETWEEN the removal and the notification of the first
+example : (runSched (E.init [[.enq 0, .drain 0, .enq 0, .drain 0]] 1)
+    [.app 0, .app 0, .app 0, .app 0, .async, .async, .eng, .eng, .eng, .app 0, .app 0]).map
+    (fun s => (s.k.e, s.owed, K.cmdsOf s.k 0, s.k.apps.map (·.pc))) = some (.notify 0, true, [2], [.enqN]) := by decide
+
+end N
+
 /-! ## any commands, GPU port (`C12.E.G`)
 With kernel commands the component cannot be read off the protocol state and a queue can be
 non-empty while the driver RIGHTLY sleeps (it waits for the GPU), so `K`'s invariant is not the right
